@@ -401,6 +401,16 @@ func (st *State) feasible(q *Term) Result {
 	return r
 }
 
+// feasibleFinal is feasible with the obligation-grade portfolio.
+func (st *State) feasibleFinal(q *Term) Result {
+	if q.IsFalse() {
+		return Unsat
+	}
+	as := append(st.slicePC(q), q)
+	r, _ := st.ex.checkFinal(as, nil)
+	return r
+}
+
 // model returns values of all inputs for pc ∧ q (full pc).
 func (st *State) solveFull(q *Term) (Result, map[string]*big.Int) {
 	as := append(append([]*Term(nil), st.pc...), q)
